@@ -397,13 +397,17 @@ CHECKS["C19"] = {
         {"module": "MC_C19", "cfg": "MC_C19.cfg", "workers": 4},
         {"module": "MC_C19", "cfg": "MC_C19_noreset.cfg", "workers": 4, "expect_violation": "SumToOne is violated"},
         {"module": "MC_C18", "cfg": "MC_C18.cfg", "workers": 8},
+        # where the weights live: histories of extractions over subsets of shared classes and re-declarations
+        {"module": "GEWeightStore", "cfg": "MC_WeightStore.cfg", "workers": 4, "timeout": 900},
+        {"module": "GEWeightStore", "cfg": "MC_WeightStore_ascoded.cfg", "workers": 4, "timeout": 900,
+         "expect_violation": "RatioKept is violated"},
     ],
     "drivers": [{"module": "harness.drv_c19", "trace": "Trace_C19"}],
     "shards": {"quick": 1, "thorough": 8},
     "rule": "one trace per weighted hierarchy (fresh classes; any subset of productions weighted incl. zero weights and "
             "nested abstract types; considered list = all classes or concrete classes only): three consecutive "
             "extractions, then every weight-aware chooser driven through all (boundary) raw draws for every "
-            "non-terminal",
+            "non-terminal; plus the history 'a smaller grammar over the same classes was extracted first'",
     "assumptions": [
         "weights are projected as integers scaled by 10^4; sums / ratios / idempotence are judged with a tolerance of "
         "2e-4 per production",
